@@ -22,7 +22,7 @@ def main():
     if getattr(mod, "DEFAULT_RECURSION", False):
         go()
     else:
-        sys.setrecursionlimit(200000)
+        sys.setrecursionlimit(getattr(mod, "RECURSION_LIMIT", 200000))
         threading.stack_size(512 * 1024 * 1024)
         th = threading.Thread(target=go)
         th.start()
